@@ -741,6 +741,10 @@ def run_c11(ctx):
                         ctx.count("x3_skipped_ill_defined")
                     if ok_ref:
                         check_x3_x4(label, kind, step_pre, post, ref, b.ap, step_phase, stmts, f, desc)
+                for v in sorted(step_pre):
+                    if v not in post and step_pre[v] is not None:
+                        raise Violation("value-not-allowed", "%s: %s held %s before the step and does not exist "
+                                        "any more" % (label, v, show(step_pre[v])), site=kind + ":vanished")
                 if any(not same_value(post.get(v), step_pre.get(v)) for v in post):
                     ctx.count("probe:fault_after_persistent_write")
                 # X5 resumption: old object vs a fresh stepper installed with the same state
@@ -788,6 +792,10 @@ def run_c11(ctx):
 
 def check_x3_x4(label, kind, pre, post, ref, ap, phase, stmts, f, desc):
     tol = Tol.get()
+    for v in sorted(pre):
+        if v not in post and pre[v] is not None:
+            raise Violation("value-not-allowed", "%s: %s held %s before the step and does not exist any more"
+                            % (label, v, show(pre[v])), site=kind + ":vanished")
     for v in sorted(post):
         pv = post[v]
         allowed_whole = [pre.get(v)]
